@@ -134,6 +134,17 @@ func (f *Fragment) GetFullSamples(trex *TrexBox) ([]FullSample, error) {
 	} else {
 		traf = moof.Traf // The first one
 	}
+	return f.getFullSamplesOfTraf(traf, trex)
+}
+
+// getFullSamplesOfTraf - Get full samples of one specific traf of the fragment (a moof may hold several trafs of one track).
+func (f *Fragment) getFullSamplesOfTraf(traf *TrafBox, trex *TrexBox) ([]FullSample, error) {
+	moof := f.Moof
+	mdat := f.Mdat
+	if mdat != nil && mdat.IsLazy() {
+		// The sample data is not in memory (lazily decoded mdat, or payload size set for separate writing)
+		return nil, fmt.Errorf("mdat is lazy: use GetSampleInterval and MdatBox.ReadData to get sample data")
+	}
 	tfhd := traf.Tfhd
 	var baseTime uint64
 	if traf.Tfdt != nil {
